@@ -229,6 +229,8 @@ class Rd:
         if k == 9:
             oid, b = self.n(), self.n()
             return ["obj", oid, b, cps(self.text())]
+        if k == 10:
+            return ["tuple", [self.val() for _ in range(self.n())]]
         raise ValueError(k)
 
     def lit(self):
@@ -292,8 +294,8 @@ def canon(spec):
         return ("str", tuple(spec[1]))
     if k == "bytes":
         return ("bytes", tuple(spec[1]))
-    if k == "list":
-        return ("list", tuple(canon(x) for x in spec[1]))
+    if k in ("list", "tuple"):
+        return (k, tuple(canon(x) for x in spec[1]))
     if k == "dict":
         return ("dict", tuple(sorted((tuple(kk), canon(x)) for kk, x in spec[1])))
     if k == "obj":
